@@ -34,6 +34,12 @@ IsSubsequence(s, c) ==   \* s keeps the order and identity of c's items
 
 LawFocusDefined == FocusItems(f).k = "ok"
 LawFirst == SameOutcome(Fn0("first"), Ev(Ix(Ce, 0))) /\ SameOutcome(Fn0("first"), FnN("take", 1))
+(* first() of a projection is its item 0 and its take(1) *)
+LawFirstOfSelect ==
+  \A e \in 1..Len(Projections) :
+     LET sel == Call(Ce, "select", <<Projections[e].e>>) IN
+     /\ SameOutcome(Ev(Call(sel, "first", <<>>)), Ev(Ix(sel, 0)))
+     /\ SameOutcome(Ev(Call(sel, "first", <<>>)), Ev(Call(sel, "take", <<N(1)>>)))
 LawTail  == SameOutcome(Fn0("tail"), FnN("skip", 1))
 LawLast  == SameOutcome(Fn0("last"), FnN("skip", Len(C) - 1)) \/ Len(C) = 0
 LawTakeSkipPartition == \A n \in NRange(f) : FnN("take", n).items \o FnN("skip", n).items = C
